@@ -10,6 +10,8 @@ import (
 // Scenario family "one instance, several terms, every cause of term end", audited for C08 (callbacks),
 // C18 (status/metrics), C19 (promotion context), C05 (tokens) and C01 (mutations).
 
+var vpC08Drain time.Duration
+
 type vpTermScn struct {
 	st    *vpStore
 	kv    *vpKV
@@ -50,7 +52,7 @@ func vpTermInstance(H time.Duration, viaFollower bool, blockOnCtx bool, mod func
 		mod(&cfg)
 	}
 	s.e = vpMustNew(&vpProvider{s.kv}, cfg)
-	s.cb = &vpCallbacks{blockOnCtx: blockOnCtx}
+	s.cb = &vpCallbacks{blockOnCtx: blockOnCtx, drain: vpC08Drain}
 	s.cb.install(s.e)
 	_ = s.e.Start(vpRootCtx())
 	if viaFollower {
@@ -176,7 +178,12 @@ func vpH_C08_T_causes() {
 	vpSetOpt("rand-fixed", 1)
 	cause := vpChoose("cause", vpCauses)
 	hc := &vpHealth{}
-	s := vpTermInstance(H, vpChoose("via-follower", 2) == 1, vpChoose("callback-blocks-on-ctx", 2) == 1, func(cfg *ElectionConfig) {
+	cbMode := vpChoose("callback", 3) // 0: returns at once, 1: blocks on its context, 2: blocks and then needs 1.2s to wind down
+	vpC08Drain = 0
+	if cbMode == 2 {
+		vpC08Drain = 1200 * time.Millisecond
+	}
+	s := vpTermInstance(H, vpChoose("via-follower", 2) == 1, cbMode >= 1, func(cfg *ElectionConfig) {
 		if cause == vpCauseValidation {
 			cfg.ValidationInterval = H
 		}
